@@ -18,6 +18,8 @@
 #include <givaro/givinterp.h>
 #include <givaro/givpoly1crt.h>
 #include <givaro/givpoly1padic.h>
+#include <givaro/gfq.h>
+#include <givaro/givinterpgeom.h>
 #include <algorithm>
 #include <set>
 #include <unistd.h>
@@ -78,6 +80,14 @@ template <class F, class V> std::string showVec(const F& f, const V& v) {
 }
 
 static long long num(const std::string& s) { return strtoll(s.c_str(), nullptr, 16); }
+
+// the range forms (iterator intervals) are protected members: a derived class makes them callable
+template <class F> struct PDX : Poly1Dom<F, Dense> {
+    typedef Poly1Dom<F, Dense> Base;
+    PDX(const F& f, const Indeter& X) : Base(f, X) {}
+    using Base::mul; using Base::stdmul; using Base::karamul; using Base::sqr;
+    using Base::midmul; using Base::stdmidmul; using Base::karamidmul;
+};
 
 // ------------------------------------------------------------------------------------------ one case
 template <class F> std::string exec(const F& f, const Toks& a) {
@@ -197,6 +207,58 @@ template <class F> std::string exec(const F& f, const Toks& a) {
     }
     else if (op == "areequal") { Pol A = P(2), B = P(3); outN(PD.areEqual(A, B) ? 1 : 0); outN(PD.areNEqual(A, B) ? 1 : 0); }
     else if (op == "getentry") { Pol A = P(2); E c; f.init(c); PD.getEntry(c, Degree(num(a.at(3))), A); outS(c); }
+    // ---- constructors / assignments (givpoly1cstor.inl)
+    else if (op == "init0")    { Pol R = junk(2); PD.init(R); outP(R); }
+    else if (op == "initv")    { Pol R = junk(2); E v = S(2); PD.init(R, v); outP(R); }
+    else if (op == "initl3")   { Pol R = junk(2); E x = S(2), y = S(3), z = S(4); PD.init(R, {x, y, z}); outP(R); }
+    else if (op == "initdeg")  { Pol R = junk(2); PD.init(R, Degree(num(a.at(2)))); outP(R); }
+    else if (op == "initdv")   { Pol R = junk(2); E v = S(3); PD.init(R, Degree(num(a.at(2))), v); outP(R); }
+    else if (op == "assigndv") { Pol R = junk(2); E v = S(3); PD.assign(R, Degree(num(a.at(2))), v); outP(R); }
+    else if (op == "assignv")  { Pol R = junk(2); E v = S(2); PD.assign(R, v); outP(R); }
+    else if (op == "assign")   { Pol A = P(2), R = junk(A.size()); PD.assign(R, A); outP(R); }
+    else if (op == "toscalar") { Pol A = P(2); E c; f.init(c); PD.assign(c, A); outS(c); }
+    else if (op == "convert")  { Pol A = P(2); E c; f.init(c); PD.convert(c, A); outS(c); }
+    // ---- further observers (givpoly1misc.inl)
+    else if (op == "observe2") {   // isMOne, isUnit, val, degree(P) by value
+        Pol A = P(2);
+        { Pol B = A; outN(PD.isMOne(B) ? 1 : 0); }
+        { Pol B = A; outN(PD.isUnit(B) ? 1 : 0); }
+        { Pol B = A; Degree d; PD.val(d, B); outN(d.value()); }
+        { Pol B = A; outN(PD.degree(B).value()); }
+    }
+    else if (op == "setentry") { Pol A = P(2); E c = S(3); PD.setEntry(A, c, Degree(num(a.at(4)))); outP(A); }
+    // ---- scalar remainder, inverse, shift (givpoly1muldiv.inl)
+    else if (op == "modinv")   { Pol R = P(2); E v = S(3); PD.modin(R, v); outP(R); }
+    else if (op == "modv")     { Pol A = P(2), R = junk(A.size()); E v = S(3); PD.mod(R, A, v); outP(R); }
+    else if (op == "inv")      { Pol A = P(2), R = junk(1); PD.inv(R, A); outP(R); }
+    else if (op == "invin")    { Pol R = P(2); PD.invin(R); outP(R); }
+    else if (op == "shiftin")  { Pol R = P(2); PD.shiftin(R, (int)num(a.at(3))); outP(R); }
+    else if (op == "modpowxin"){ Pol R = P(2); PD.modpowxin(R, Degree(num(a.at(3)))); outP(R); }
+    else if (op == "wrappers") {   // givpoly1dense.h: characteristic / cardinality / setDegree / getdomain
+        Pol A = P(2);
+        Integer c; PD.characteristic(c); o += vp::hex(c.get_mpz());
+        Integer k; PD.cardinality(k); outN(k == 0 ? 0 : 1);
+        outN((PD.getdomain() == f && PD.subdomain() == f && PD.getDomain() == f && PD.subDomain() == f) ? 1 : 0);
+        PD.setDegree(A); outP(A);
+    }
+    // ---- the range forms on an R range of n places: R is printed raw (all n places)
+    else if (op == "rmul" || op == "rstdmul" || op == "rkaramul" || op == "rmidmul" || op == "rstdmidmul" || op == "rkaramidmul") {
+        PDX<F> X(f, Indeter("X"));
+        size_t n = (size_t)num(a.at(2)); Pol A = P(3), B = P(4); Pol R(n, f.one);
+        if (op == "rmul") X.mul(R, R.begin(), R.end(), A, A.begin(), A.end(), B, B.begin(), B.end());
+        else if (op == "rstdmul") X.stdmul(R, R.begin(), R.end(), A, A.begin(), A.end(), B, B.begin(), B.end());
+        else if (op == "rkaramul") X.karamul(R, R.begin(), R.end(), A, A.begin(), A.end(), B, B.begin(), B.end());
+        else if (op == "rmidmul") X.midmul(R, R.begin(), R.end(), A, A.begin(), A.end(), B, B.begin(), B.end());
+        else if (op == "rstdmidmul") X.stdmidmul(R, R.begin(), R.end(), A, A.begin(), A.end(), B, B.begin(), B.end());
+        else X.karamidmul(R, R.begin(), R.end(), A, A.begin(), A.end(), B, B.begin(), B.end());
+        o += showVec(f, R);
+    }
+    else if (op == "rsqr") {
+        PDX<F> X(f, Indeter("X"));
+        Pol A = P(2); Pol R(2 * A.size() - 1, f.one);
+        X.sqr(R, R.begin(), R.end(), A, A.begin(), A.end());
+        o += showVec(f, R);
+    }
     // ---- interpolation, CRT
     else if (op == "interp") {
         Pol xs = P(2), fs = P(3);
@@ -230,6 +292,25 @@ static std::string exec_padic(const Modular<int32_t>& f, const Toks& a) {
         Integer e; PAD.eval(e, A);
         return vp::hex(e.get_mpz());
     }
+    if (a.at(0) == "convertvec") {   // convert(Vect<UU>&, P): every stored coefficient converted
+        PD_t::Element A = parseVec(f, a.at(2));
+        std::vector<long> V; PD.convert(V, A);
+        std::string o = "[";
+        for (size_t i = 0; i < V.size(); ++i) { if (i) o += ','; o += vp::hex_ll(V[i]); }
+        return o + "]";
+    }
+    if (a.at(0) == "padic_eval64") {   // the uint64_t overload (value below 2^64 by construction of the case)
+        PD_t::Element A = parseVec(f, a.at(2));
+        uint64_t e = 0; PAD.eval(e, A);
+        return vp::hex_ull(e);
+    }
+    if (a.at(0) == "padic_radixn") {   // explicit number of digits
+        Integer e; mpz_set_str(e.get_mpz(), a.at(2).c_str(), 16);
+        PD_t::Element R; PAD.radix(R, e, (int64_t)num(a.at(3)));
+        std::string o = showVec(f, R);
+        Degree d; PD.degree(d, R);
+        return o + " " + vp::hex_ll(d.value());
+    }
     if (a.at(0) == "padic_radix") {
         Integer e; mpz_set_str(e.get_mpz(), a.at(2).c_str(), 16);
         PD_t::Element R; PAD.radix(R, e);
@@ -245,6 +326,26 @@ static std::string exec_padic(const Modular<int32_t>& f, const Toks& a) {
 #ifndef C08_CASE_TIMEOUT
 #define C08_CASE_TIMEOUT 5
 #endif
+// geometric interpolation needs a field with generator(): GFqDom<int64_t>(p,1); coefficients travel as integers < p
+static std::string exec_interpgeom(long p, const Toks& a) {
+    typedef GFqDom<int64_t> F; typedef Poly1Dom<F, Dense> PD_t; typedef PD_t::Element Pol;
+    F Fq((uint64_t)p, 1); PD_t PD(Fq, Indeter("X"));
+    Pol T;
+    { std::string in = a.at(2).substr(1, a.at(2).size() - 2);
+      if (!in.empty()) for (auto& t : split(in, ',')) { F::Element e; Fq.init(e, (int64_t)strtoll(t.c_str(), nullptr, 16)); T.push_back(e); } }
+    long n = strtol(a.at(3).c_str(), nullptr, 16);
+    auto bb = [&](F::Element& v, const F::Element& x) -> F::Element& { return PD.eval(v, T, x); };
+    NewtonInterpGeom<F> G(Fq, Indeter("X"));
+    G.initialize(bb);
+    for (long i = 1; i < n; ++i) G(bb);
+    Pol I; G.interpolator(I);
+    std::string o = "[";
+    for (size_t i = 0; i < I.size(); ++i) { int64_t v; Fq.convert(v, I[i]); if (i) o += ','; o += vp::hex_ll(v); }
+    o += "]";
+    Degree d; PD.degree(d, I);
+    return o + " " + vp::hex_ll(d.value());
+}
+
 static std::string run_line(const Toks& in) {
     // in: op [t:..] field args...
     alarm(C08_CASE_TIMEOUT);
@@ -256,7 +357,8 @@ static std::string run_line(const Toks& in) {
         if (ft == "Q") { QField<Rational> f; res = exec(f, a); }
         else if (ft.compare(0, 2, "p:") == 0) {
             Modular<int32_t> f((int32_t)strtoll(ft.c_str() + 2, nullptr, 16));
-            res = (a[0].compare(0, 6, "padic_") == 0) ? exec_padic(f, a) : exec(f, a);
+            if (a[0] == "interpgeom") res = exec_interpgeom(strtol(ft.c_str() + 2, nullptr, 16), a);
+            else res = (a[0].compare(0, 6, "padic_") == 0 || a[0] == "convertvec") ? exec_padic(f, a) : exec(f, a);
         }
         else if (ft.compare(0, 2, "P:") == 0) {
             Integer p; mpz_set_str(p.get_mpz(), ft.c_str() + 2, 16);
@@ -392,6 +494,21 @@ static void gen_field(Gen& g, const std::string& tier, const std::string& profil
             g.emit("al_divv", {A, g.nz()});
             if (d >= 0) { g.emit("vdiv", {g.scalar(), A}); g.emit("vmod", {g.scalar(), A}); }
             g.emit("pow", {A, H((long)g.rng.below(d > 4 ? 4 : 7))});
+            // constructors, further observers, scalar remainder, inverse, shift, wrappers
+            g.emit("assign", {A}); g.emit("toscalar", {A}); g.emit("convert", {A}); g.emit("observe2", {A}); g.emit("wrappers", {A});
+            g.emit("setentry", {A, g.scalar((int)g.rng.below(4)), H((long)g.rng.below(d + 4))});
+            g.emit("modinv", {A, g.nz()}); g.emit("modv", {A, g.nz()});
+            g.emit("shiftin", {A, H((long)g.rng.below(4))});
+            g.emit("modpowxin", {A, H((long)g.rng.below(d + 3))});
+            if (d == 0) { g.emit("inv", {A}); g.emit("invin", {A}); }
+            if (rep == 0) {
+                g.emit("init0", {}); g.emit("initv", {g.scalar((int)g.rng.below(4))});
+                g.emit("initl3", {g.scalar(), g.scalar(), g.scalar((int)g.rng.below(3))});
+                g.emit("initdeg", {H(d < 0 ? 0 : d)});
+                g.emit("initdv", {H(d < 0 ? 0 : d), g.scalar((int)g.rng.below(4))});
+                g.emit("assigndv", {H(d < 0 ? 0 : d), g.scalar((int)g.rng.below(4))});
+                g.emit("assignv", {g.scalar((int)g.rng.below(4))});
+            }
             if (d >= 0) {
                 std::string A1 = g.poly(d, g.pick_norm_shape());
                 // invertible constant term
@@ -423,6 +540,9 @@ static void gen_field(Gen& g, const std::string& tier, const std::string& profil
     if (!g.isQ && !karaonly) {
         std::vector<std::string> es = {"10000000000000000", "10000000000000005", "ffffffffffffffff", "20000000000000003",
                                        "10000000000000001", "fffffffffffffffe"};
+        // exponent 0 (and small ones) with a constant modulus: every power is 0 modulo a unit
+        for (const char* e : {"0", "1", "5"}) g.emit("powmod", {g.poly(2, g.pick_norm_shape()), e, g.poly(0, 0)});
+        g.emit("powmod", {g.poly(-1), "0", g.poly(1, 0)});
         for (long du = 1; du <= 3; ++du) {
             Integer q(1); for (long k = 0; k < du * 24 && q < Integer(1) << 70; ++k) q *= g.p;   // a power of p beyond 2^64
             Integer qm = q - 1;
@@ -444,6 +564,23 @@ static void gen_field(Gen& g, const std::string& tier, const std::string& profil
             if (!karaonly) g.emit("stdmidmul", {g.poly(pr.first, 0), g.poly(pr.second, 0)});
         }
         if (pr.first == 2 * pr.second) g.emit("karamidmul", {g.poly(pr.first, 0), g.poly(pr.second, 0)});
+    }
+    // ---------------- the range forms: every R range length from 1 to beyond the full product (truncated and over-long)
+    for (long i = 1; i <= (g.isQ ? 3 : 5); ++i) for (long j = 1; j <= (g.isQ ? 3 : 5); ++j) {
+        std::string A = g.poly(i - 1, (int)g.rng.below(3) == 0 ? 5 : 0), B = g.poly(j - 1, 0);
+        auto sz = [](const std::string& t) { long c = 1; for (char ch : t) if (ch == ',') ++c; return t == "[]" ? 0L : c; };
+        long sa = sz(A), sb = sz(B);
+        for (long n = 1; n <= sa + sb + 1; ++n) {
+            g.emit("rmul", {H(n), A, B});
+            if (!karaonly) g.emit("rstdmul", {H(n), A, B});
+            if (sa >= 2 && sb >= 2) g.emit("rkaramul", {H(n), A, B});
+        }
+        g.emit("rsqr", {A});
+        if (sa >= sb) {
+            g.emit("rmidmul", {H(sa - sb + 1), A, B});
+            if (!karaonly) g.emit("rstdmidmul", {H(sa - sb + 1), A, B});
+            if (sa == 2 * sb - 1) g.emit("rkaramidmul", {H(sb), A, B});
+        }
     }
     // ---------------- operands sharing a large common factor
     for (int rep = 0; rep < (thorough ? 40 : 12); ++rep) {
@@ -510,10 +647,20 @@ static void gen_field(Gen& g, const std::string& tier, const std::string& profil
         if (g.ftok.compare(0, 2, "p:") == 0)
             for (int rep = 0; rep < (thorough ? 60 : 20); ++rep) {
                 long d = (long)g.rng.below(12);
-                g.emit("padic_eval", {g.poly(d, g.pick_norm_shape())});
+                g.emit("padic_eval", {g.poly(rep == 4 ? -1 : d, g.pick_norm_shape())});
+                if (rep % 4 == 1) g.emit("convertvec", {g.poly(d, -1)});
+                if (g.p > 16 && rep % 2 == 1) {   // geometric interpolation: enough points, and more than enough
+                    long dg = (long)g.rng.below(6) - 1;
+                    g.emit("interpgeom", {g.poly(dg, g.pick_norm_shape()), vp::hex_ll((dg < 0 ? 1 : dg + 1) + (long)g.rng.below(3))});
+                }
+                if (rep % 3 == 0) g.emit("padic_eval64", {g.poly((long)g.rng.below(3), g.pick_norm_shape())});
                 Integer e(0); for (uint64_t k = 1 + g.rng.below(3); k--;) { e <<= 32; e += Integer((uint64_t)(g.rng.next() >> 32)); }
                 if (rep < 3) e = rep;
                 if (e > 0) g.emit("padic_radix", {vp::hex(e.get_mpz())});
+                if (rep % 2 == 0) {   // explicit digit count: exactly enough, and more than enough
+                    long nd = 1; { Integer q(g.p); while (q <= e) { q *= g.p; ++nd; } }
+                    g.emit("padic_radixn", {vp::hex(e.get_mpz()), vp::hex_ll(nd + (rep % 4 == 0 ? 0 : 3))});
+                }
             }
     }
 }
